@@ -68,13 +68,13 @@ def gen_case(r, hashseed, tier):
 
 
 def gen_fault(r):
-  kind = r.choice(['abort', 'abort', 'interrupt', 'interrupt', 'full', 'busy', 'busy'])
+  kind = r.choice(['abort', 'abort', 'interrupt', 'interrupt', 'full', 'full', 'full', 'busy'])
   f = {'kind': kind, 'at': r.choice([2, 3, 4, 4, 4, 5, 6, 6, 7, 8, 10])}
   if kind == 'interrupt':
     f['steps'] = r.choice([1, 1, 3, 10, 50])
   if kind == 'full':
-    f = {'kind': 'full', 'db': HOME, 'pages': r.choice([0, 0, 1, 2])}
-  if kind != 'abort' and r.random() < 0.5:
+    f = {'kind': 'full', 'db': HOME, 'pages': r.choice([0, 0, 0, 1])}
+  if kind != 'abort' and r.random() < 0.6:
     # the process survives an engine error; whoever caught the exception may keep it (a notebook's
     # sys.last_value, a test harness), and with it the failed run's connection
     f['retain'] = True
